@@ -685,11 +685,11 @@ func runC16(c *Ctx) {
 	} else {
 		lifeUDPRace(c, 1500)
 	}
+	lifeMetricsInflight(c, 3)
 	if c.Tier == "thorough" {
 		lifeMetricsInflight(c, 35)
-	} else {
-		lifeMetricsInflight(c, 6)
 	}
+	lifeMetricsStalled(c)
 	for i := 0; i < 8; i++ {
 		lifeMetrics(c, i%4 != 0)
 		lifeMetrics(c, true)
@@ -1034,7 +1034,69 @@ func lifeMetricsInflight(c *Ctx, secs int) {
 		case r = <-done:
 		case <-time.After(time.Duration(secs+8) * time.Second):
 		}
+		if secs > 4 { // longer than Stop is prepared to wait (D37): the request is cut, its handler gone soon after
+			gone := false
+			for i := 0; i < 200 && !gone; i++ {
+				gone = goroutinesOf("net/http/pprof.Profile") == 0
+				if !gone {
+					time.Sleep(10 * time.Millisecond)
+				}
+			}
+			return fmt.Sprintf("request_running_at_stop=%s stopped=%s request_cut=%s handler_gone=%s", b01(running), b01(stopped), b01(!r.ok), b01(gone))
+		}
 		return fmt.Sprintf("request_running_at_stop=%s stopped=%s request_ok=%s stop_completed_before_request=%s", b01(running), b01(stopped), b01(r.ok), b01(r.when.IsZero() || stopAt.Before(r.when.Add(-200*time.Millisecond))))
+	}()
+	c.Emit(op, obs)
+}
+
+// life.metrics_stalled: a client of the metrics port announces a request body and never sends it, and keeps its
+// connection open. Stop must complete all the same (D37), the port must be free and nothing of the server left.
+func lifeMetricsStalled(c *Ctx) {
+	op := "life.metrics_stalled"
+	c.Begin(op)
+	obs := func() (o string) {
+		defer func() {
+			if p := recover(); p != nil {
+				o = "PANIC " + strings.Fields(fmt.Sprint(p))[0]
+			}
+		}()
+		g0 := goroutinesOf("net/http.(*conn).serve")
+		addr := fmt.Sprintf("127.0.0.1:%d", privatePort())
+		srv := metrics.NewServer(addr)
+		var conn net.Conn
+		var err error
+		for i := 0; i < 100; i++ {
+			if conn, err = net.Dial("tcp", addr); err == nil {
+				break
+			}
+			time.Sleep(20 * time.Millisecond)
+		}
+		if err != nil {
+			<-srv.Stop()
+			return "no-connection"
+		}
+		defer conn.Close()
+		_, _ = conn.Write([]byte("GET /metrics HTTP/1.1\r\nHost: x\r\nContent-Length: 10\r\n\r\n"))
+		// the server is now waiting for the rest of the request (net/http wants the announced body before it answers)
+		time.Sleep(300 * time.Millisecond)
+		res := srv.Stop()
+		stopped, _ := waitStop(res, 12*time.Second)
+		free := false
+		if stopped {
+			if l, e := net.Listen("tcp", addr); e == nil {
+				free = true
+				l.Close()
+			}
+		}
+		left := -1
+		for i := 0; i < 100; i++ {
+			left = goroutinesOf("net/http.(*conn).serve") - g0
+			if left <= 0 {
+				break
+			}
+			time.Sleep(10 * time.Millisecond)
+		}
+		return fmt.Sprintf("stop_terminated=%s port_free=%s conn_goroutines_left=%d", b01(stopped), b01(free), left)
 	}()
 	c.Emit(op, obs)
 }
